@@ -1292,12 +1292,11 @@ func c08Setup(t *testing.T, rec *ev.Rec, rnd *rand.Rand, run, variant int, liqRu
 	// borrows are routed through the second transit asset as well
 	scarceFirst := (variant/3)%2 == 1
 	// every second variant: the lend app has id 3 as on the production chain (some handlers name that id)
-	lendAppSlot = 1
+	lendAppSlot := 1
 	if variant%2 == 0 {
 		lendAppSlot = 3
 	}
-	e.u = lendUniverse(t, c, variant%3)
-	lendAppSlot = 1
+	e.u = lendUniverseApp(t, c, variant%3, lendAppSlot)
 	c.NextBlock(6 * time.Second)
 	// liquidity: the funder (account 5) funds pools and the reserve through real transactions
 	funder := c.Accts[5]
